@@ -1428,3 +1428,36 @@ mod tests {
         assert_eq!(normalize_encoded_attr("-0100"), "-100");
     }
 }
+
+#[cfg(anoncreds_verif)]
+#[doc(hidden)]
+pub(crate) mod verif_hooks {
+    use super::*;
+
+    pub(crate) fn normalize_encoded_attr(attr: &str) -> String {
+        super::normalize_encoded_attr(attr)
+    }
+
+    #[allow(clippy::too_many_arguments)]
+    pub(crate) fn check_non_revoked_interval(
+        cred_def: &CredentialDefinition,
+        attrs_nonrevoked_interval: Option<NonRevokedInterval>,
+        pred_nonrevoked_interval: Option<NonRevokedInterval>,
+        pres_req: &PresentationRequestPayload,
+        rev_reg_id: Option<&RevocationRegistryDefinitionId>,
+        nonrevoke_interval_override: Option<
+            &HashMap<RevocationRegistryDefinitionId, HashMap<u64, u64>>,
+        >,
+        timestamp: Option<u64>,
+    ) -> Result<()> {
+        super::check_non_revoked_interval(
+            cred_def,
+            attrs_nonrevoked_interval,
+            pred_nonrevoked_interval,
+            pres_req,
+            rev_reg_id,
+            nonrevoke_interval_override,
+            timestamp,
+        )
+    }
+}
